@@ -14,6 +14,44 @@ I = z3.IntSort()
 TWO128 = 1 << 128
 
 
+# wide_bitvectors: keep products / sums of machine integers as wide bit-vectors (good for comparisons of scaled sums);
+# off: everything is a mathematical integer at once (good when the specification is an integer formula)
+# symbolic_ops: multiplication / division of big integers stay uninterpreted function applications (with sign / zero
+# axioms added per application), so that a formula kernel can be compared with its specification structurally
+CONFIG = {'wide_bitvectors': True, 'symbolic_ops': False}
+
+INT_MUL = z3.Function('int_mul', z3.IntSort(), z3.IntSort(), z3.IntSort())
+INT_DIV_TRUNC = z3.Function('int_div_trunc', z3.IntSort(), z3.IntSort(), z3.IntSort())
+INT_DIV_FLOOR = z3.Function('int_div_floor', z3.IntSort(), z3.IntSort(), z3.IntSort())
+
+
+def imul(a, b):
+    if not CONFIG['symbolic_ops']:
+        return a * b
+    from .interp import G
+    t = INT_MUL(a, b)
+    G.add(z3.And(z3.Implies(z3.And(a >= 0, b >= 0), t >= 0), (t == 0) == z3.Or(a == 0, b == 0)))
+    return t
+
+
+def idiv_trunc(a, b):
+    if not CONFIG['symbolic_ops']:
+        return z3.If(z3.And(a >= 0, b > 0), a / b, trunc_div(a, b))
+    from .interp import G
+    t = INT_DIV_TRUNC(a, b)
+    G.add(z3.Implies(z3.And(a >= 0, b > 0), t >= 0))
+    return t
+
+
+def idiv_floor(a, b):
+    if not CONFIG['symbolic_ops']:
+        return a / b
+    from .interp import G
+    t = INT_DIV_FLOOR(a, b)
+    G.add(z3.Implies(z3.And(a >= 0, b > 0), t >= 0))
+    return t
+
+
 def big(t):
     return Opaque('BigInt', (t,))
 
@@ -57,6 +95,8 @@ def rval(it, st, v):
 
 @summary(r'^<(num::)?(BigInt|BigUint) as From<(u8|u16|u32|u64|u128|usize)>>::from$')
 def _big_from_unsigned(it, st, args, ctx):
+    if not CONFIG['wide_bitvectors'] or CONFIG['symbolic_ops']:
+        return big(z3.BV2Int(args[0], False))
     return bigbv(args[0])
 
 
@@ -79,7 +119,7 @@ def _big_arith(it, st, args, ctx):
     a, b = ival(it, st, args[0]), ival(it, st, args[1])
     op = ctx.callee.rsplit('::', 1)[1]
     if op == 'mul':
-        return big(a * b)
+        return big(imul(a, b))
     if op == 'add':
         return big(a + b)
     r = a - b
@@ -98,7 +138,7 @@ def trunc_div(a, b):
 def _big_div(it, st, args, ctx):
     a, b = ival(it, st, args[0]), ival(it, st, args[1])
     # operands in these kernels are non-negative; truncation = floor there.  A negative operand is made explicit.
-    return _panic_fork(it, st, b != 0, big(z3.If(z3.And(a >= 0, b > 0), a / b, trunc_div(a, b))),
+    return _panic_fork(it, st, b != 0, big(idiv_trunc(a, b)),
                        'attempt to divide by zero (BigInt)', ctx)
 
 
@@ -110,7 +150,7 @@ def _big_pow(it, st, args, ctx):
         raise Unsupported('BigInt::pow with symbolic exponent')
     r = z3.IntVal(1)
     for _ in range(e.as_long()):
-        r = r * a
+        r = imul(r, a)
     return big(r)
 
 
@@ -212,7 +252,7 @@ def _ratio_from_pair(it, st, args, ctx):
 def _ratio_muldiv(it, st, args, ctx):
     (an, ad), (bn, bd) = rval(it, st, args[0]), rval(it, st, args[1])
     if ctx.callee.endswith('mul'):
-        return ratio(an * bn, ad * bd)
+        return ratio(imul(an, bn), imul(ad, bd))
     n, d = an * bd, ad * bn
     return _ratio_new(it, st, n, d, ctx)
 
@@ -226,7 +266,7 @@ def _ratio_recip(it, st, args, ctx):
 @summary(r'^(num::rational::)?Ratio::<(BigInt|BigUint)>::floor$')
 def _ratio_floor(it, st, args, ctx):
     n, d = rval(it, st, args[0])
-    return ratio(n / d, z3.IntVal(1))  # den > 0: z3 Int division is the floor
+    return ratio(idiv_floor(n, d), z3.IntVal(1))  # den > 0: z3 Int division is the floor
 
 
 @summary(r'^(num::rational::)?Ratio::<(BigInt|BigUint)>::(numer|denom)$')
